@@ -15,7 +15,7 @@ func init() {
 		ID: "C06",
 		Explanation: "MaxMessageBytes enforcement decided structurally: the DATA reader is armed with the limit at construction and disarmed only after the backend returned; inside Read the buffer is cut to the remaining budget, the budget is reduced by the delivered count on every exit and an exhausted budget returns the 552 SMTPError (never EOF); " +
 			"the SIZE parameter and the BDAT running total are refused exactly when they exceed the limit (strict >, by edge-feasibility under both polarities) with a 552 and no callback. " +
-			"NOT decided: the DATA boundary at exactly N octets (needs joint reasoning about the budget counter and the automaton across calls).",
+			"The DATA boundary: the over-limit error is unreachable while the budget is merely exhausted (n >= 0) and the buffer is cut to budget+1, so the end marker of a message of exactly N octets is still seen; that the octet beyond the budget is never handed out is checked on the returned count.",
 		Run: runC06,
 	})
 }
@@ -98,21 +98,30 @@ func runC06(c *Ctx) {
 		R.Ob("(*dataReader).Read/returns ErrDataTooLarge", c.P.Pos(f.Pos()), len(tooLarge) >= 1, "no return of ErrDataTooLarge found: an exhausted budget is not reported")
 		for _, r := range tooLarge {
 			c.obUnreach("ErrDataTooLarge", r, `dataReader.limited == false`)
-			c.obUnreach("ErrDataTooLarge", r, `dataReader.n > 0`)
-			n, _ := constInt(r.(*ssa.Return).Results[0])
-			R.Ob(c.siteKey(r, "ErrDataTooLarge delivers nothing"), c.P.InstrPos(r), n == 0, "exhausted budget still reports delivered octets")
+			// strictness: a budget that is exhausted but not exceeded is not an error (a message of exactly N octets is accepted)
+			c.obUnreach("ErrDataTooLarge", r, `dataReader.n >= 0`)
+			res := r.(*ssa.Return).Results[0]
+			okCount := false
+			if k, isK := constInt(res); isK && k == 0 {
+				okCount = true
+			} else if bo, isB := res.(*ssa.BinOp); isB && bo.Op == token.SUB {
+				if k, isK := constInt(bo.Y); isK && k == 1 {
+					okCount = true // n-1: the octet beyond the budget is not handed out
+				}
+			}
+			R.Ob(c.siteKey(r, "ErrDataTooLarge hands out at most the budget"), c.P.InstrPos(r), okCount, "over-limit return reports "+describe(res)+" delivered octets")
 		}
 		if t.err == nil {
-			c.obUnreach("ReadByte", t.m.readCall, `dataReader.limited == true`, `dataReader.n <= 0`)
+			c.obUnreach("ReadByte", t.m.readCall, `dataReader.limited == true`, `dataReader.n < 0`)
 			// buffer cut: the buffer the loop writes to must be a loop-header phi
 			// (cut or uncut), not the raw parameter
 			cutSeen := false
 			allInstrs(f, func(in ssa.Instruction) {
-				if sl, ok := in.(*ssa.Slice); ok && describe(sl.X) == "param1" && sl.High != nil && describe(sl.High) == "dataReader.n" {
+				if sl, ok := in.(*ssa.Slice); ok && describe(sl.X) == "param1" && sl.High != nil && describe(sl.High) == "(dataReader.n + 1)" {
 					cutSeen = true
 				}
 			})
-			R.Ob("(*dataReader).Read/buffer cut exists", c.P.Pos(f.Pos()), cutSeen, "Read never cuts the caller's buffer to the remaining budget: one call can deliver more than the limit")
+			R.Ob("(*dataReader).Read/buffer cut exists", c.P.Pos(f.Pos()), cutSeen, "Read never cuts the caller's buffer to the remaining budget plus the one probe octet: one call can deliver more than the limit, or an end marker exactly at the limit cannot be recognised")
 			for _, in := range t.m.header.Instrs {
 				phi, ok := in.(*ssa.Phi)
 				if !ok {
@@ -128,11 +137,11 @@ func runC06(c *Ctx) {
 					}
 					if describe(e) == "param1" {
 						// uncut buffer may enter only when not limited or len(b) <= n
-						fb := c.F.feasibleBlocks(f, HSet(`dataReader.limited == true`, `builtin:len(param1) > dataReader.n`))
-						feasible := fb[pred] && !c.F.infeasible(pred, t.m.header, HSet(`dataReader.limited == true`, `builtin:len(param1) > dataReader.n`))
+						fb := c.F.feasibleBlocks(f, HSet(`dataReader.limited == true`, `builtin:len(param1) > (dataReader.n + 1)`))
+						feasible := fb[pred] && !c.F.infeasible(pred, t.m.header, HSet(`dataReader.limited == true`, `builtin:len(param1) > (dataReader.n + 1)`))
 						R.Ob(fmt.Sprintf("(*dataReader).Read/uncut buffer edge from block %s", pred.Comment), c.P.InstrPos(phi), !feasible, "the caller's full buffer reaches the copy loop although it is larger than the remaining budget")
 					} else if sl, ok := e.(*ssa.Slice); ok {
-						okHigh := sl.High != nil && describe(sl.High) == "dataReader.n" && sliceFromZero(sl) && describe(sl.X) == "param1"
+						okHigh := sl.High != nil && describe(sl.High) == "(dataReader.n + 1)" && sliceFromZero(sl) && describe(sl.X) == "param1"
 						R.Ob("(*dataReader).Read/buffer cut to budget", c.P.InstrPos(sl), okHigh, "buffer is cut to "+describe(sl))
 					}
 				}
@@ -151,6 +160,37 @@ func runC06(c *Ctx) {
 					})
 				}
 				R.Ob(c.siteKey(st, "n -= delivered"), c.P.InstrPos(st), ok, "budget updated to "+describe(v))
+			}
+		}
+		// after every budget update the overflow (n < 0) is tested before the function can return
+		for _, st := range s.Find(f, "st:dataReader.n") {
+			st := st
+			v := RunPend(f, PendRule{
+				Trig: func(in ssa.Instruction) bool { return in == st },
+				Disch: func(in ssa.Instruction) bool {
+					iff, ok := in.(*ssa.If)
+					if !ok {
+						return false
+					}
+					d := describe(iff.Cond)
+					return d == "(dataReader.n < 0)" || d == "(dataReader.n >= 0)" || d == "(dataReader.n <= -1)"
+				},
+				AtExit: true,
+			})
+			R.Ob(c.siteKey(st, "overflow tested after the budget update"), c.P.InstrPos(st), len(v) == 0, "Read can return after reducing the budget without testing whether it went below zero: the probe octet beyond the limit is handed to the backend")
+		}
+		nPost := 0
+		for _, r := range tooLarge {
+			if t.err == nil && reachableFrom(t.m.header, nil)[r.Block()] {
+				nPost++
+			}
+		}
+		R.Ob("(*dataReader).Read/overflow after reading is reported", c.P.Pos(f.Pos()), nPost >= 1, "no ErrDataTooLarge return after the copy loop: the octet beyond the limit is delivered")
+		// the overflow is detected right after the budget is reduced
+		for _, r := range tooLarge {
+			if reachableFrom(f.Blocks[0], nil)[r.Block()] && t.err == nil && reachableFrom(t.m.header, nil)[r.Block()] {
+				seen := s.SeenBefore(r)
+				R.Ob(c.siteKey(r, "overflow tested after the budget was reduced"), c.P.InstrPos(r), seen["st:dataReader.n"], "over-limit return after the loop is not preceded by the budget update")
 			}
 		}
 		code, ok1 := compositeIntField(c, "ErrDataTooLarge", "Code")
